@@ -47,12 +47,12 @@ func init() {
 			if c.Thorough() {
 				depth = 4
 			}
-			(&Explore{Label: "setter-histories", Starts: StartURLs, Alphabet: SetterAlphabet(0), Depth: depth, Check: c05Check, Kind: "hist-c05"}).Run(c)
+			(&Explore{Label: "setter-histories", Starts: StartURLs, Alphabet: append(append(SetterAlphabet(0), SelfAlphabet()...), Op{Kind: "observe"}), Depth: depth, Check: c05Check, Kind: "hist-c05"}).Run(c)
 			if !c.Thorough() {
 				// one level deeper on a reduced value menu
-				(&Explore{Label: "setter-histories-d4-reduced", Starts: StartURLs, Alphabet: SetterAlphabet(3), Depth: 4, Check: c05Check, Kind: "hist-c05"}).Run(c)
+				(&Explore{Label: "setter-histories-d4-reduced", Starts: StartURLs, Alphabet: append(append(SetterAlphabet(3), SelfAlphabet()...), Op{Kind: "observe"}), Depth: 4, Check: c05Check, Kind: "hist-c05"}).Run(c)
 			} else {
-				(&Explore{Label: "setter-histories-d5-reduced", Starts: StartURLs, Alphabet: SetterAlphabet(3), Depth: 5, Check: c05Check, Kind: "hist-c05"}).Run(c)
+				(&Explore{Label: "setter-histories-d5-reduced", Starts: StartURLs, Alphabet: append(append(SetterAlphabet(3), SelfAlphabet()...), Op{Kind: "observe"}), Depth: 5, Check: c05Check, Kind: "hist-c05"}).Run(c)
 			}
 			// value sweep: one setter call with every value of Sigma^<=k
 			c.Space("setter-value-sweep")
